@@ -22,7 +22,7 @@ RULE = ("cases = generated workloads (random DAGs up to 12 operators with multi-
 ASSUMPTIONS = ["values are compared as floats after parsing (the file holds repr() texts)",
                "arrival column after read->write is excluded here (its tick mapping is C13)"]
 NSHARDS = {"quick": 16, "thorough": 16}
-N = {"quick": 120, "thorough": 3000}
+N = {"quick": 120, "thorough": 25000}
 REQUIRE = {"pipelines_roundtripped": 5000, "multi_parent_operators": 2000, "multi_root_pipelines": 500, "memory_zero_values": 300,
            "memory_unset_values": 2000, "rewrite_rows_compared": 20000, "malformed:refused": 600}
 for _c in ("missing-priority", "missing-arrival", "later-priority", "later-arrival", "unknown-priority", "unknown-law", "undefined-parent"):
